@@ -129,6 +129,9 @@ def post_c18(text, out):
                 return f"detached-{t}"
         prev_end = e
         prev = (t, x)
+    sym = _indentation_clause(out, lv)
+    if sym:
+        return sym
     tail = b[prev_end:].decode("utf-8", "replace")
     if "\t" in tail or re.search(r"[ \t]\n", tail) or re.search(r"[ \t]$", tail):
         return "trailing-whitespace-at-eof"
@@ -136,6 +139,66 @@ def post_c18(text, out):
         return "more-than-one-blank-line-at-eof"
     # comment bodies may not carry tabs/trailing blanks introduced by the renderer either, but the
     # statement excludes comment contents, so they are not scanned.
+    return None
+
+
+def _indentation_clause(out, lv):
+    """C18, last sentence: a closing delimiter that starts a line is indented like the line that holds its opening
+    delimiter; an own-line `#` comment is indented like the next line of code, or (last thing before a closing
+    delimiter) one level deeper than the line of the opener."""
+    b = out.encode("utf-8")
+    line_start = [0]
+    for i, ch in enumerate(b):
+        if ch == 10:
+            line_start.append(i + 1)
+    import bisect
+
+    def line_of(pos):
+        return bisect.bisect_right(line_start, pos) - 1
+
+    def indent_of_line(k):
+        j = line_start[k]
+        n = 0
+        while j < len(b) and b[j] == 32:
+            n += 1
+            j += 1
+        return n
+
+    first_on_line = {}
+    for t, x, s_, e in lv:
+        first_on_line.setdefault(line_of(s_), (t, s_))
+    stack = []
+    code_lines = sorted(k for k, (t, _s) in first_on_line.items() if t != "comment")
+    for idx, (t, x, s_, e) in enumerate(lv):
+        if t in ("{", "[", "(", "${"):
+            stack.append((t, line_of(s_)))
+        elif t in ("}", "]", ")"):
+            if not stack:
+                return None
+            ot, oline = stack.pop()
+            if ot == "${":
+                continue
+            k = line_of(s_)
+            if first_on_line.get(k, (None, None))[1] == s_ and k != oline:
+                if s_ - line_start[k] != indent_of_line(oline):
+                    return f"closing-delimiter-not-indented-with-its-structure:{t}"
+        elif t == "comment" and x.startswith("#"):
+            k = line_of(s_)
+            if first_on_line.get(k, (None, None))[1] != s_ or k == 0 and s_ == 0:
+                continue
+            col = s_ - line_start[k]
+            nxt = next((c for c in code_lines if c > k), None)
+            ok = set()
+            if nxt is not None:
+                nt = first_on_line[nxt][0]
+                ok.add(indent_of_line(nxt) + (2 if nt in ("}", "]", ")", "in", "then", "else") else 0))
+                ok.add(indent_of_line(nxt))
+            if stack:
+                ok.add(indent_of_line(stack[-1][1]) + 2)
+            if nxt is None and not stack:
+                ok.add(0)
+            if col not in ok:
+                return "own-line-comment-not-indented-with-its-structure"
     return None
 
 
